@@ -234,6 +234,7 @@ ADD13 = {
  "C09": " A second Close of an association does nothing.",
  "C10": " The pool is in the order the Caddyfile gives; every peer of every upstream is probed, taken from the upstream's own list.",
  "C11": " On every failing path of provisioning the upstream holds as many peers as table references were taken; the peers probed come from the upstream's own list.",
+ "C12": " After a v1 header without addresses the connection published for a later proxy handler is the one handed on, so the header that proxy sends carries the connection's own addresses.",
  "C13": " The matching buffer goes back to the pool once; prefetch does not call itself; a context stored into the connection is not cancelled after the hand-off.",
  "C14": " The openvpn static key's accessors, evaluated for every key direction, return the quarter openvpn's key-direction table says; an rdp custom_info filter longer than the longest cookie hash.",
  "C15": " A single optional module is loaded only where its raw field is set.",
